@@ -215,7 +215,13 @@ func execFork(p *Process, argv []string) error {
 	}*/
 
 	err := cmd.Wait()
-	if err != nil && !strings.HasPrefix(err.Error(), "signal:") && err.Error() != "wait: no child processes" {
+	if err != nil && strings.HasPrefix(err.Error(), "signal:") {
+		// terminated by a signal (killed, segfault, etc): this isn't reported as
+		// an error but the process still failed so it must not exit zero
+		p.ExitNum = signalExitNum(cmd.ProcessState)
+		return nil
+	}
+	if err != nil && err.Error() != "wait: no child processes" {
 		//mxdtR.Close()
 		debug.Log(err)
 		return err
